@@ -64,6 +64,21 @@ func init() {
 		},
 	})
 	core.Register(&core.Property{
+		ID:         "C08",
+		Decided:    "Decides that every published opcode program was post-processed for interface frames, that the slot fields the interpreters address are the ones the frame size is computed from, that frame trailers and the +3 sizing constants agree, that the frame base is recomputed after the slot array may have moved, that cycle bookkeeping pushes and pops in pairs, that objects whose address is held only as uintptr are kept alive, that type-driven compile recursion is bounded, and that compiled programs are not written at run time; it does not decide memory safety of every execution.",
+		NotCovered: "that TotalLength is sufficient for every program shape, correctness of ptrToPtr chains, the contents of recycled Ptrs slots, what user callbacks do.",
+		Rules: []*core.Rule{
+			{ID: "C08.R1", Title: "every value stored in OpcodeSet.*KeyCode or CompiledCode.Code was the argument of setTotalLengthToInterfaceOp (or copyToInterfaceOpcode of such a value) earlier in the same function", Covers: "interface{} values inside recursive or cached programs run with a correctly sized frame", Min: 5, Run: c08r1},
+			{ID: "C08.R2", Title: "the Opcode fields used as slot offsets in load/store/loadNPtr of each VM are among the fields MaxIdx folds into the frame size", Covers: "no slot access beyond the frame", Min: 8, Run: c08r2},
+			{ID: "C08.R3", Title: "copyToInterfaceOpcode and linkRecursiveCode give the end op the same number of trailer slots, and every frame-size computation in linkRecursiveCode and the four Run functions adds exactly that number", Covers: "saved offset / return code / indent slots stay inside the frame", Min: 12, Run: c08r3},
+			{ID: "C08.R4", Title: "typestate over Run: after an assignment to ctx.Ptrs, ctxptr is stale until reassigned; no stale use", Covers: "frame growth during deep nesting does not leave loads/stores on the old array", Min: 4, Run: c08r4},
+			{ID: "C08.R5", Title: "in OpInterface/OpRecursive the SeenPtr scan is under the level test and every path from the SeenPtr append reaches recursiveLevel++ or an error return; the End ops decrement and pop", Covers: "cycles are reported and acyclic values never are", Min: 24, Run: c08r5},
+			{ID: "C08.R6", Title: "encode/encodeNoEscape/encodeIndent append the root pointer, and Run appends mapCtx and the interface word, to ctx.KeepRefs", Covers: "callbacks that allocate, collect or grow the stack do not invalidate the traversal", Min: 10, Run: c08r6},
+			{ID: "C08.R7", Title: "recursion rule C06.R2 evaluated from the Marshal entry points on package encoder's compiler", Covers: "recursive types compile without unbounded recursion", Min: 1, Run: c08r7},
+			{ID: "C08.R8", Title: "no field of Opcode/OpcodeSet/CompiledCode is written outside code.go/compiler.go/opcode.go (QueryCache excepted)", Covers: "the cached program of a type is the same for every later and concurrent encoding", Min: 30, Run: c08r8},
+		},
+	})
+	core.Register(&core.Property{
 		ID:         "C09",
 		Decided:    "Decides that stream-mode scanners never use a window pointer, slice or loaded byte after a call that may refill the window without re-taking it, that the literal readers compare a byte again after a refill, that the io.Reader's error is kept, and that buffer and stream scanners classify value-start bytes alike; it does not decide equality of results for any chunking.",
 		NotCovered: "equality of decoded values per chunking, InputOffset/More/Token arithmetic, concatenated documents, strings handed out before a later refill.",
